@@ -18,6 +18,7 @@
 #include <memory>
 #include <algorithm>
 #include <functional>
+#include <array>
 #include <type_traits>
 #include <cstddef>
 #include <igris/datastruct/pool.h>
@@ -358,6 +359,79 @@ struct SopCase
 };
 static std::unique_ptr<SopCase> SC;
 
+// ---- the three pool twins (pool_head, igris::pool, static_object_pool) on ONE history.  Cells are named by the
+// slot of the request that obtained them, never by address or order: the property does not fix WHICH free cell is
+// handed out, so the result line carries only null / non-null and the counters the API exposes; everything about
+// the cells themselves (in zone, cell boundary, aligned, not live, contents) is judged by the oracle per twin.
+struct TriCase
+{
+    std::unique_ptr<SopBase> sop;
+    size_t e = 0, cap = 0;
+    std::unique_ptr<exact_buf> zone[2];
+    pool_head head;
+    igris::pool ip;
+    std::map<int, std::array<char *, 3>> slots;
+    std::map<size_t, uint64_t> live[2]; // twin 0 / 1: offset -> pattern seed
+    std::set<size_t> live_sop;          // twin 2: offsets of live objects
+    uint64_t ctr = 1;
+    ~TriCase() { sop.reset(); }
+    char *zbase(int t) { return t < 2 ? (char *)zone[t]->p : sop->base(); }
+    size_t nlive(int t) { return t < 2 ? live[t].size() : live_sop.size(); }
+    // judge a cell handed out by twin t
+    void check_new(int t, char *q, out &o)
+    {
+        std::string who = t == 0 ? "pool_head" : t == 1 ? "igris::pool" : "static_object_pool";
+        if (!q)
+        {
+            if (nlive(t) != cap) o.fail(who + ": null with " + s(nlive(t)) + " of " + s(cap) + " cells live");
+            return;
+        }
+        if (nlive(t) >= cap) o.fail(who + ": non-null although all " + s(cap) + " cells are live");
+        if (q < zbase(t) || q + e > zbase(t) + cap * e)
+        {
+            o.fail(who + ": cell outside the zone");
+            return;
+        }
+        size_t off = (size_t)(q - zbase(t));
+        if (off % e) o.fail(who + ": cell not on a cell boundary");
+        if ((uintptr_t)q % 8) o.fail(who + ": cell misaligned");
+        if (t < 2)
+        {
+            if (live[t].count(off)) o.fail(who + ": cell " + s(off) + " handed out twice");
+            uint64_t sd = ctr++;
+            live[t][off] = sd;
+            for (size_t i = 0; i < e; i++) q[i] = (char)pat(sd, i);
+        }
+        else
+        {
+            if (live_sop.count(off)) o.fail(who + ": cell " + s(off) + " handed out twice");
+            if ((uintptr_t)q % sop->alT()) o.fail(who + ": object misaligned for T");
+            live_sop.insert(off);
+        }
+    }
+    void check_all(out &o)
+    {
+        for (int t = 0; t < 2; t++)
+            for (auto &kv : live[t])
+                for (size_t i = 0; i < e; i++)
+                    if ((uint8_t)zbase(t)[kv.first + i] != pat(kv.second, i))
+                    {
+                        o.fail(std::string(t ? "igris::pool" : "pool_head") + ": contents of live cell " + s(kv.first) + " changed");
+                        i = e;
+                    }
+        for (size_t off : live_sop)
+            if (!sop->intact(sop->base() + off)) o.fail("static_object_pool: contents of live object " + s(off) + " changed");
+        if (pool_avail(&head) != cap - live[0].size()) o.fail("pool_head: avail != capacity - live");
+        if (ip.avail() != cap - live[1].size() || ip.room() != cap - live[1].size()) o.fail("igris::pool: avail / room != capacity - live");
+        if (sop->avail() != cap - live_sop.size()) o.fail("static_object_pool: avail != Capacity - live");
+        for (size_t i = 0; i < cap; i++)
+            if (ip.cell_is_allocated((int)i) != (live[1].count(i * e) != 0)) o.fail("igris::pool: cell_is_allocated(" + s(i) + ") disagrees with the shadow set");
+        if (!sop_err.empty()) o.fail("static_object_pool: " + sop_err);
+        if (sop_objs.size() != live_sop.size()) o.fail("static_object_pool: constructed objects != live cells");
+    }
+};
+static std::unique_ptr<TriCase> TC;
+
 // ================================================================ heap
 struct Blk
 {
@@ -596,6 +670,7 @@ static void run_op(const std::vector<std::string> &w, const std::string &, out &
         PC.reset();
         MC.reset();
         SC.reset();
+        TC.reset();
         HC.reset();
         sop_objs.clear();
         sop_err.clear();
@@ -659,6 +734,27 @@ static void run_op(const std::vector<std::string> &w, const std::string &, out &
             }
             if (!must_refuse && !clean) o.fail("pool_engage of a valid zone failed");
             o.tag(must_refuse ? "engage-refused" : "engage-child");
+            return;
+        }
+        if (k == "tri")
+        {
+            size_t idx = strtoul(w[2].c_str(), 0, 10);
+            if (idx >= sop_kinds.size())
+            {
+                o.result = "bad-op";
+                return;
+            }
+            TC.reset(new TriCase());
+            TC->sop.reset(sop_kinds[idx].mk());
+            TC->e = TC->sop->storage();
+            TC->cap = TC->sop->cap();
+            for (int t = 0; t < 2; t++) TC->zone[t].reset(new exact_buf(TC->e * TC->cap));
+            pool_init(&TC->head);
+            pool_engage(&TC->head, TC->zone[0]->p, TC->e * TC->cap, TC->e);
+            TC->ip.init(TC->zone[1]->p, TC->e * TC->cap, TC->e);
+            o.result = s(TC->e) + " " + s(TC->cap) + " | " + s(pool_avail(&TC->head)) + " | " + su(TC->ip.size()) + " " + su(TC->ip.room()) + " " + su(TC->ip.avail()) + " | " + s(TC->sop->avail());
+            TC->check_all(o);
+            o.tag("twins");
             return;
         }
         if (k == "mpool")
@@ -761,6 +857,60 @@ static void run_op(const std::vector<std::string> &w, const std::string &, out &
             return;
         }
         o.result = "bad-op";
+        return;
+    }
+    // ------------------------------------------------ the three twins on one history
+    if (TC)
+    {
+        long c0 = sop_ctor_runs, d0 = sop_dtor_runs;
+        std::string r[3] = {"-", "-", "-"};
+        if (op == "a")
+        {
+            int slot = atoi(w[1].c_str());
+            std::array<char *, 3> q = {(char *)pool_alloc(&TC->head), (char *)TC->ip.get(), (char *)TC->sop->create()};
+            for (int t = 0; t < 3; t++)
+            {
+                TC->check_new(t, q[t], o);
+                r[t] = q[t] ? "cell" : "null";
+            }
+            if ((q[2] != nullptr) != (sop_ctor_runs == c0 + 1) || sop_dtor_runs != d0) o.fail("static_object_pool: create must run the constructor exactly once iff it returns an object");
+            if (!((q[0] == nullptr) == (q[1] == nullptr) && (q[1] == nullptr) == (q[2] == nullptr))) o.fail("twins with equal capacity and equal history disagree on exhaustion");
+            TC->slots[slot] = q;
+            o.tag(q[0] ? "twins-alloc" : "twins-null");
+        }
+        else if (op == "f")
+        {
+            int slot = atoi(w[1].c_str());
+            auto it = TC->slots.find(slot);
+            std::array<char *, 3> q = {nullptr, nullptr, nullptr};
+            if (it != TC->slots.end())
+            {
+                q = it->second;
+                TC->slots.erase(it);
+            }
+            if (q[0])
+            {
+                TC->live[0].erase((size_t)(q[0] - TC->zbase(0)));
+                pool_free(&TC->head, q[0]);
+            }
+            if (q[1]) TC->live[1].erase((size_t)(q[1] - TC->zbase(1)));
+            TC->ip.put(q[1]); // put(NULL) is a no-op
+            if (q[2])
+            {
+                TC->live_sop.erase((size_t)(q[2] - TC->zbase(2)));
+                TC->sop->destroy(q[2]);
+                if (sop_dtor_runs != d0 + 1 || sop_ctor_runs != c0) o.fail("static_object_pool: destroy must run the destructor exactly once");
+            }
+            o.tag(q[0] ? "twins-free" : "twins-free-null");
+        }
+        else
+        {
+            o.result = "bad-op";
+            return;
+        }
+        o.result = r[0] + " " + s(pool_avail(&TC->head)) + " | " + r[1] + " " + su(TC->ip.room()) + " " + su(TC->ip.avail()) + " | " + r[2] + " " + s(TC->sop->avail()) + " " +
+                   s(sop_objs.size()) + " " + s(sop_ctor_runs) + " " + s(sop_dtor_runs);
+        TC->check_all(o);
         return;
     }
     // ------------------------------------------------ pool fed from several zones
@@ -1837,6 +1987,37 @@ static void gen_mpool_case(rng &r, int shape, bool mixed_elemsz)
     probe();
 }
 
+// the three twins on one history, cells named by request slots (no assumption on which cell is handed out)
+static void gen_tri_case(rng &r, size_t idx)
+{
+    size_t cap = sop_kinds[idx].cap;
+    printf("reset tri %zu\n", idx);
+    std::vector<int> live;
+    int next = 0;
+    auto alloc = [&]() {
+        printf("a %d\n", next);
+        if (live.size() < cap) live.push_back(next);
+        next++;
+    };
+    auto rel = [&](size_t i) {
+        printf("f %d\n", live[i]);
+        live.erase(live.begin() + i);
+    };
+    for (size_t i = 0; i < cap + 2; i++) alloc(); // exactly the capacity, then null twice
+    printf("f %d\n", next - 1);                   // a slot that holds NULL
+    int order = (int)r.below(3);
+    size_t keep = r.below(live.size() + 1);
+    while (live.size() > keep) rel(order == 0 ? live.size() - 1 : order == 1 ? 0 : (size_t)r.below(live.size()));
+    for (int i = 0, n = (int)r.range(5, 40); i < n; i++)
+    {
+        if (live.empty() || r.chance(55)) alloc();
+        else rel((size_t)r.below(live.size()));
+    }
+    while (!live.empty()) rel((size_t)r.below(live.size()));
+    for (size_t i = 0; i < cap + 1; i++) alloc();
+    while (!live.empty()) rel(live.size() - 1); // destroy everything: the harness deletes the pool afterwards
+}
+
 static void gen_sop_case(rng &r, const SopKind &k, bool extra_zones = false)
 {
     printf("reset sop %zu %zu %zu\n", k.sz, k.al, k.cap);
@@ -1919,6 +2100,9 @@ static void gen(rng &r, const std::string &tier)
     // object pools extended by further zones through freelist()
     for (auto &k : sop_kinds)
         for (int i = 0; i < (th ? 4 : 1); i++) gen_sop_case(r, k, true);
+    // ---- pool_head, igris::pool and static_object_pool on the same histories
+    for (size_t idx = 0; idx < sop_kinds.size(); idx++)
+        for (int i = 0; i < (th ? 6 : 1); i++) gen_tri_case(r, idx);
     // ---- one pool fed from 1..4 zones engaged at arbitrary points of the history
     for (int i = 0; i < (th ? 1200 : 160); i++) gen_mpool_case(r, i % 4, i % 5 == 4);
     // ---- heap: exhaustive short histories over a 4-size alphabet
